@@ -7,12 +7,12 @@ VERIF = os.path.dirname(os.path.dirname(os.path.abspath(__file__)))
 
 COMMON_NOTE = ("Trusted: Coq 8.16.1 kernel; no axioms (Print Assumptions output is recorded per theorem in the "
                "evidence; the thorough tier re-checks the compiled theorems with coqchk -o and records its axiom summary); hand-written Gallina model tied to /repo by regenerated tables (harness/gen_tables.py), by "
-               "re-translation of yarl/_path.py, of unsplit_result / make_netloc (yarl/_parse.py) and of the constructors encode_url / pre_encoded_url (yarl/_url.py) from the source with proofs of equality to the model (harness/gen_model.py; C15_source_*, C07_source_*) "
+               "re-translation of yarl/_path.py, of unsplit_result / make_netloc (yarl/_parse.py) and of the constructors encode_url / pre_encoded_url / __str__ / __eq__ / ordering operators (yarl/_url.py) from the source with proofs of equality to the model (harness/gen_model.py; C15_source_*, C07_source_*) "
                "and by a differential correspondence check of the extracted model (ExtrOcamlBasic only) against "
                "both quoting backends built from the working tree; extracted theorem predicates applied to the "
                "implementation's outputs.")
 
-TECH = ("Coq proof (Rocq 8.16.1, kernel-checked, no axioms) over a hand-written Gallina model; tie to the source: tables regenerated from /repo each run, Python-ast-to-Gallina re-translation of _path.py, unsplit_result, make_netloc, encode_url, pre_encoded_url with equality proofs, "
+TECH = ("Coq proof (Rocq 8.16.1, kernel-checked, no axioms) over a hand-written Gallina model; tie to the source: tables regenerated from /repo each run, Python-ast-to-Gallina re-translation of _path.py, unsplit_result, make_netloc, encode_url, pre_encoded_url, __str__, __eq__ and the ordering operators with equality proofs, "
         "extracted-model differential correspondence against both backends, extracted theorem predicates evaluated on the implementation's outputs")
 
 CHECKS = {
@@ -93,7 +93,7 @@ CHECKS = {
                  'follows), and fails only where an authority accessor fails (C07_recompose*); unsplit_result and make_netloc of '
                  'yarl/_parse.py and the constructors encode_url / pre_encoded_url of yarl/_url.py are re-translated from the source on '
                  'every run and proved equal to the model - same outcome on every input, same stored strings, same primed cache '
-                 'entries (C07_source_*). '
+                 'entries; __str__ likewise (C07_source_*). '
                  'PARTIAL: consistency of the stored '
                  'authority with the reported parts is an extracted predicate on the implementation (exhaustive delimiter strings, Unicode '
                  'aliases of scheme characters and digits). Known finding F17.'),
@@ -128,7 +128,9 @@ CHECKS = {
     },
     "C10": {
         "text": ("Proved on the model: == is the equality of the normalised 5-tuple (an equivalence), the ordering is a total preorder with "
-                 "trichotomy, <= is < or ==. 'Never equal to a non-URL' is type-dispatch glue probed on the implementation only."),
+                 "trichotomy, <= is < or ==; __eq__, _cmp_val and the four ordering operators of yarl/_url.py are re-translated from the source "
+                 "on every run and proved equal to those definitions (C10_source_*). 'Never equal to a non-URL' is type-dispatch glue "
+                 "probed on the implementation only."),
         "design_ref": "DESIGN.md section 7 C10",
     },
     "C12": {
